@@ -1,2 +1,317 @@
-(** Placeholder until the proofs land. *)
-Require Import JF.Model.Cells JF.Model.CellIndex JF.Model.CellsCases.
+(** * Props/C16.v — C16: the cell grid partitions the box; neighbour / nearby / relative-offset /
+    translate relations coincide with index arithmetic modulo the number of cells per side.
+
+    Float part (one direction of the box; the directions are independent and are combined by the flat
+    index): Model/Cells.v on Flocq binary64.  Index part: Model/CellIndex.v on Z, any dimension,
+    unequal numbers of cells per side.
+
+    Stated limitation (DESIGN.md, C16): the code computes relative_cell / translate through float cell
+    midpoints; that this equals the index arithmetic [relative] / [translate] below for ALL box lengths is
+    not proved; it is checked exhaustively (all cell pairs) on every generated grid by the correspondence. *)
+From Coq Require Import ZArith Reals Bool List Lia.
+From Flocq Require Import Core.Core IEEE754.BinarySingleNaN.
+Require Import JF.Base.F64 JF.Base.PyFloat JF.Model.Cells JF.Model.CellIndex JF.Model.CellsCases.
+Require Import JF.Proofs.CellsProofs JF.Proofs.CellIndexProofs.
+Import ListNotations.
+Local Open Scope Z_scope.
+
+(** Concrete floats for the non-vacuity examples: L = 1.0, 3 cells (the grid of finding F2). *)
+Definition ex_L : f64 := fone.
+Definition ex_s : f64 := side ex_L 3.
+Definition ex_top : f64 := fpred ex_L.
+Definition ex_quarter : f64 := of_bits 0x3FD0000000000000.
+Definition ex_mins : list f64 := map of_bits [0; 0x3FD5555555555555; 0x3FE5555555555555].
+
+Ltac by_eval := vm_compute; reflexivity.
+Ltac ex_inD := split; [by_eval | split; [change 0%R with (val fzero) |]; apply fle_spec; by_eval].
+
+(* ------------------------------------------------------------------------------------------- *)
+(** ** 1. position -> cell index (one direction) *)
+
+(** The cell index is monotone in the position (as long as the quotient of the larger position is finite,
+    which holds for positions in the box: hypothesis [pre_ok] below checks it at pred L). *)
+Theorem idx_monotone : forall (s : f64) (n : Z) (x y : f64),
+  ffinite x = true -> (0 <= val x <= val y)%R -> (0 < val s)%R -> ffinite (fdiv y s) = true ->
+  idx s n x <= idx s n y.
+Proof. exact CellsProofs.idx_monotone. Qed.
+Print Assumptions idx_monotone.
+
+Example idx_monotone_nonvacuous :
+  (ffinite ex_quarter = true /\ (0 <= val ex_quarter <= val ex_top)%R /\ (0 < val ex_s)%R /\
+   ffinite (fdiv ex_top ex_s) = true) /\ idx ex_s 3 ex_quarter = 0 /\ idx ex_s 3 ex_top = 2.
+Proof.
+  split; [|split; by_eval]. split; [by_eval|]. split; [|split; [|by_eval]].
+  - split; [change 0%R with (val fzero) |]; apply fle_spec; by_eval.
+  - apply fgt_zero; by_eval.
+Qed.
+
+(** Every non-negative position is mapped to a cell of the grid (in particular every 0 <= x < L). *)
+Theorem idx_in_range : forall (s : f64) (n : Z) (x : f64),
+  1 <= n -> ffinite x = true -> (0 <= val x)%R -> (0 < val s)%R -> 0 <= idx s n x < n.
+Proof. exact CellsProofs.idx_in_range. Qed.
+Print Assumptions idx_in_range.
+
+Example idx_in_range_nonvacuous :
+  (1 <= 3 /\ ffinite ex_top = true /\ (0 <= val ex_top)%R /\ (0 < val ex_s)%R) /\ idx ex_s 3 ex_top = 2.
+Proof.
+  split; [|by_eval]. split; [lia|]. split; [by_eval|]. split.
+  - change 0%R with (val fzero). apply fle_spec; by_eval.
+  - apply fgt_zero; by_eval.
+Qed.
+
+(** Finding F2 (repaired in /repo by 0904f0b) on the UNCLAMPED index int(x / side): a position in [0, L)
+    whose raw index is the number of cells.  Witness L = 1, n = 3, x = pred 1. *)
+Theorem idx_top_raw_refuted : exists (L : f64) (n : Z) (x : f64),
+  fle fzero x = true /\ flt x L = true /\ raw_idx (side L n) x = n.
+Proof. exact CellsProofs.idx_top_raw_refuted. Qed.
+Print Assumptions idx_top_raw_refuted.
+
+Example idx_top_raw_refuted_witness : raw_idx ex_s ex_top = 3 /\ idx ex_s 3 ex_top = 2.
+Proof. split; by_eval. Qed.
+
+(** Positions of the box [0, L) are exactly the floats of the domain [0, pred L] used below. *)
+Theorem box_positions_domain : forall (L x : f64),
+  ffinite L = true -> ffinite x = true -> (0 <= val x < val L)%R -> inD (fpred L) x.
+Proof. exact CellsProofs.in_box_inD. Qed.
+Print Assumptions box_positions_domain.
+
+Example box_positions_domain_nonvacuous :
+  ffinite ex_L = true /\ ffinite ex_quarter = true /\ (0 <= val ex_quarter)%R /\ (val ex_quarter <= val ex_top)%R.
+Proof.
+  split; [by_eval|]. split; [by_eval|]. split; [change 0%R with (val fzero) |]; apply fle_spec; by_eval.
+Qed.
+
+(* ------------------------------------------------------------------------------------------- *)
+(** ** 2. abstract partition lemma *)
+
+(** A monotone map from consecutive integers lo..hi (think: the floats of [0, pred L] in their order) to Z
+    cuts its domain into intervals: every element lies between the least and greatest element of its
+    fibre; a fibre is exactly the interval between its ends (hence fibres are pairwise disjoint);
+    consecutive non-empty fibres abut without gap or overlap; the first starts at lo and the last ends
+    at hi. *)
+Theorem monotone_partition : forall f lo hi, mono_on f lo hi ->
+  (forall x, lo <= x <= hi ->
+     exists mn mx, fibre_min f lo hi (f x) mn /\ fibre_max f lo hi (f x) mx /\ mn <= x <= mx) /\
+  (forall c mn mx, fibre_min f lo hi c mn -> fibre_max f lo hi c mx ->
+     forall x, lo <= x <= hi -> (f x = c <-> mn <= x <= mx)) /\
+  (forall c c' mx mn', c < c' -> fibre_max f lo hi c mx -> fibre_min f lo hi c' mn' ->
+     (forall x, lo <= x <= hi -> f x <= c \/ c' <= f x) -> mn' = mx + 1) /\
+  (forall mn, fibre_min f lo hi (f lo) mn -> mn = lo) /\
+  (forall mx, fibre_max f lo hi (f hi) mx -> mx = hi).
+Proof. exact CellsProofs.monotone_partition. Qed.
+Print Assumptions monotone_partition.
+
+Example monotone_partition_nonvacuous :
+  mono_on (fun x => x / 4) 0 10 /\ fibre_min (fun x => x / 4) 0 10 1 4 /\ fibre_max (fun x => x / 4) 0 10 1 7.
+Proof.
+  split; [|split].
+  - intros x y H1 H2 H3. apply Z.div_le_mono; lia.
+  - split; [lia|]. split; [reflexivity|]. intros x Hx He.
+    destruct (Z_lt_le_dec x 4); [|lia]. assert (x / 4 < 1) by (apply Z.div_lt_upper_bound; lia). lia.
+  - split; [lia|]. split; [reflexivity|]. intros x Hx He.
+    destruct (Z_lt_le_dec 7 x); [|lia]. assert (2 <= x / 4) by (apply Z.div_le_lower_bound; lia). lia.
+Qed.
+
+(* ------------------------------------------------------------------------------------------- *)
+(** ** 3. the constructor's stepping loops and the recorded extents *)
+
+(** Whenever the (fuelled) loops of the constructor return, the result is the least (lower loops) /
+    greatest (upper loops) float of [0, top] that is mapped to cell i — provided cell i is not empty
+    (witness w), the start point lies in [0, top] on the right side of the cell, and (upper loops) some
+    position z is mapped above cell i.  "With enough fuel" = the loops return [Some _]; the real loops
+    are observed to terminate on every generated grid (the constructor returns). *)
+Theorem extent_loops_correct :
+  (forall (s top : f64) (n i : Z) fuel (start w r : f64),
+     1 <= n -> 1 <= i -> (0 < val s)%R -> ffinite (fdiv top s) = true ->
+     inD top start -> idx s n start <= i ->
+     inD top w -> idx s n w = i ->
+     lower_loops fuel next_float_up next_float_down (idx s n) i start = Some r ->
+     inD top r /\ idx s n r = i /\ (forall y, inD top y -> idx s n y = i -> (val r <= val y)%R)) /\
+  (forall (s top : f64) (n i : Z) fuel (start w z r : f64),
+     (0 < val s)%R -> ffinite (fdiv top s) = true ->
+     inD top start -> i <= idx s n start ->
+     inD top w -> idx s n w = i ->
+     inD top z -> i < idx s n z ->
+     upper_loops fuel next_float_up next_float_down (idx s n) i start = Some r ->
+     inD top r /\ idx s n r = i /\ (forall y, inD top y -> idx s n y = i -> (val y <= val r)%R)).
+Proof. exact CellsProofs.extent_loops_correct_lemma. Qed.
+Print Assumptions extent_loops_correct.
+
+Example extent_loops_correct_nonvacuous :
+  let start := lower_start ex_s 1 in let w := nth 1 ex_mins fzero in
+  (0 < val ex_s)%R /\ ffinite (fdiv ex_top ex_s) = true /\
+  inD ex_top start /\ idx ex_s 3 start <= 1 /\ inD ex_top w /\ idx ex_s 3 w = 1 /\
+  exists r, lower_loops 64 next_float_up next_float_down (idx ex_s 3) 1 start = Some r /\ feqb_bits r w = true.
+Proof.
+  cbv zeta. split; [apply fgt_zero; by_eval|]. split; [by_eval|].
+  split; [ex_inD|]. split; [vm_compute; discriminate|]. split; [ex_inD|]. split; [by_eval|].
+  eexists. split; [vm_compute; reflexivity | by_eval].
+Qed.
+
+(** The recorded extents of one direction partition the positions of the box.
+    [pre_ok L n ws] is a boolean evaluated inside Coq for every generated grid by the correspondence
+    (case CPre): the quotient pred L / side is finite, no cell is empty (witnesses ws), the loop start
+    points i*side and (i+1)*side lie in [0, pred L] on the right side of cell i.
+    If the constructor's loops returned mn i / mx i for every cell, then: the first cell starts at 0 and the
+    last ends at the largest float below L (the grid covers [0, L)); the float following mx i is mn (i+1)
+    (cells abut without gap or overlap); and every position of [0, pred L] is mapped to a cell of the
+    grid, lies in that cell's recorded extent, and lies in no other cell's extent. *)
+Theorem grid_partition : forall fuel (L : f64) (n : Z) (ws : list f64) (mn mx : Z -> f64),
+  let s := side L n in let top := fpred L in
+  pre_ok L n ws = true ->
+  (forall i, 0 <= i < n -> cell_min fuel L n i = Some (mn i) /\ cell_max fuel L n i = Some (mx i)) ->
+  val (mn 0) = 0%R /\ mx (n - 1) = fpred L /\
+  (forall i, 0 <= i -> i + 1 < n ->
+     val (fsucc (mx i)) = val (mn (i + 1)) /\ val (mn (i + 1)) = succ radix2 fexp64 (val (mx i))) /\
+  (forall x, inD top x ->
+     0 <= idx s n x < n /\
+     (val (mn (idx s n x)) <= val x <= val (mx (idx s n x)))%R /\
+     (forall c, 0 <= c < n -> (val (mn c) <= val x <= val (mx c))%R -> c = idx s n x)).
+Proof. exact CellsProofs.grid_partition_checked. Qed.
+Print Assumptions grid_partition.
+
+Example grid_partition_nonvacuous :
+  pre_ok ex_L 3 ex_mins = true /\
+  forall i, 0 <= i < 3 ->
+    cell_min 64 ex_L 3 i = Some (nth (Z.to_nat i) ex_mins fzero) /\
+    exists m, cell_max 64 ex_L 3 i = Some m.
+Proof.
+  split; [by_eval|]. intros i Hi.
+  assert (H : i = 0 \/ i = 1 \/ i = 2) by lia.
+  destruct H as [-> | [-> | ->]]; (split; [by_eval | eexists; vm_compute; reflexivity]).
+Qed.
+
+(* ------------------------------------------------------------------------------------------- *)
+(** ** 4. index relations: a torus (any dimension, unequal numbers of cells per side) *)
+
+(** The flat index is a bijection between valid identifiers and [0, number_of_cells): "every identifier
+    names exactly one cell". *)
+Theorem flat_bijective : forall ns,
+  (forall id, valid ns id -> 0 <= flat ns id < number_of_cells ns /\ unflat ns (flat ns id) = id) /\
+  (positive_counts ns -> forall k, 0 <= k < number_of_cells ns ->
+     flat ns (unflat ns k) = k /\ valid ns (unflat ns k)).
+Proof.
+  exact (fun ns => conj (fun id H => conj (flat_range ns id H) (unflat_flat ns id H))
+                        (fun Hp k Hk => flat_unflat ns k Hp Hk)).
+Qed.
+Print Assumptions flat_bijective.
+
+Example flat_bijective_nonvacuous :
+  valid [4; 5; 3] [3; 4; 2] /\ flat [4; 5; 3] [3; 4; 2] = 59 /\ unflat [4; 5; 3] 59 = [3; 4; 2] /\
+  positive_counts [4; 5; 3].
+Proof. split; [apply validb_spec; reflexivity|]. repeat split; repeat constructor. Qed.
+
+(** The constructor's odometer stores the cell with flat index k at list position k. *)
+Theorem cell_list_order : forall ns k, positive_counts ns -> 0 <= k < number_of_cells ns ->
+  let id := nth (Z.to_nat k) (all_idents ns) [] in valid ns id /\ flat ns id = k.
+Proof. exact all_idents_nth. Qed.
+Print Assumptions cell_list_order.
+
+Example cell_list_order_nonvacuous : positive_counts [2; 3] /\ nth 3 (all_idents [2; 3]) [] = [1; 1].
+Proof. split; [repeat constructor | reflexivity]. Qed.
+
+(** translate inverts relative offset, and conversely *)
+Theorem translate_relative : forall ns c r, valid ns c -> valid ns r ->
+  translate ns r (relative ns c r) = c.
+Proof. exact CellIndexProofs.translate_relative. Qed.
+Print Assumptions translate_relative.
+
+Example translate_relative_nonvacuous :
+  valid [4; 5; 3] [1; 4; 0] /\ valid [4; 5; 3] [3; 2; 2] /\ relative [4; 5; 3] [1; 4; 0] [3; 2; 2] = [2; 2; 1].
+Proof. split; [apply validb_spec; reflexivity|]. split; [apply validb_spec; reflexivity | reflexivity]. Qed.
+
+Theorem relative_translate : forall ns c rel, valid ns c -> valid ns rel ->
+  relative ns (translate ns c rel) c = rel.
+Proof. exact CellIndexProofs.relative_translate. Qed.
+Print Assumptions relative_translate.
+
+Example relative_translate_nonvacuous :
+  valid [4; 5; 3] [3; 2; 2] /\ valid [4; 5; 3] [2; 2; 1] /\ translate [4; 5; 3] [3; 2; 2] [2; 2; 1] = [1; 4; 0].
+Proof. split; [apply validb_spec; reflexivity|]. split; [apply validb_spec; reflexivity | reflexivity]. Qed.
+
+(** nearby is exactly "every index entry shifted by at most [layers], modulo the count", symmetric,
+    reflexive, duplicate-free (also when 2*layers+1 exceeds the number of cells in a direction) *)
+Theorem nearby_characterised : forall l ns a b,
+  (In b (nearby_p l ns a) <-> near l ns a b) /\ NoDup (nearby_p l ns a).
+Proof. exact (fun l ns a b => conj (In_nearby_p l ns a b) (nearby_p_NoDup l ns a)). Qed.
+Print Assumptions nearby_characterised.
+
+Example nearby_characterised_nonvacuous : length (nearby_p 2 [4; 5; 3] [0; 0; 0]) = 60%nat.
+Proof. reflexivity. Qed.
+
+Theorem nearby_symmetric : forall l ns a b, valid ns a -> valid ns b ->
+  (In b (nearby_p l ns a) <-> In a (nearby_p l ns b)).
+Proof. exact CellIndexProofs.nearby_symmetric. Qed.
+Print Assumptions nearby_symmetric.
+
+Example nearby_symmetric_nonvacuous :
+  valid [4; 5] [0; 0] /\ valid [4; 5] [3; 4] /\ In [3; 4] (nearby_p 1 [4; 5] [0; 0]) /\
+  In [0; 0] (nearby_p 1 [4; 5] [3; 4]) /\ ~ In [2; 2] (nearby_p 1 [4; 5] [0; 0]).
+Proof.
+  split; [apply validb_spec; reflexivity|]. split; [apply validb_spec; reflexivity|].
+  split; [vm_compute; tauto|]. split; [vm_compute; tauto|].
+  vm_compute. intros H. repeat (destruct H as [H|H]; [discriminate H|]). exact H.
+Qed.
+
+Theorem nearby_refl : forall l ns a, 0 <= l -> valid ns a -> In a (nearby_p l ns a).
+Proof. exact CellIndexProofs.nearby_refl. Qed.
+Print Assumptions nearby_refl.
+
+Example nearby_refl_nonvacuous : valid [4; 5] [3; 4] /\ nearby_p 0 [4; 5] [3; 4] = [[3; 4]].
+Proof. split; [apply validb_spec; reflexivity | reflexivity]. Qed.
+
+(** nearby of any cell is the translate of nearby of the zero cell (as sets) — the fact the cell-based
+    bounding potentials rely on *)
+Theorem nearby_translation_invariant : forall l ns a b, valid ns a ->
+  (In b (nearby_p l ns a) <-> In b (map (translate ns a) (nearby_p l ns (zero ns)))).
+Proof. exact CellIndexProofs.nearby_translation_invariant. Qed.
+Print Assumptions nearby_translation_invariant.
+
+Example nearby_translation_invariant_nonvacuous :
+  valid [2; 5] [1; 4] /\ length (nearby_p 1 [2; 5] [1; 4]) = 6%nat /\
+  In [0; 0] (map (translate [2; 5] [1; 4]) (nearby_p 1 [2; 5] (zero [2; 5]))).
+Proof. split; [apply validb_spec; reflexivity|]. split; [reflexivity | vm_compute; tauto]. Qed.
+
+(** the periodic neighbour in direction d is the translate by the unit cell; positive and negative
+    neighbours are mutually inverse *)
+Theorem neighbor_is_translate_unit : forall ns a d positive, valid ns a ->
+  neighbor_p ns a d positive = translate ns a (unit_cell ns d positive) /\
+  neighbor_p ns (neighbor_p ns a d positive) d (negb positive) = a.
+Proof.
+  exact (fun ns a d p H => conj (CellIndexProofs.neighbor_is_translate_unit ns a d p H)
+                                (neighbor_p_inverse ns a d p H)).
+Qed.
+Print Assumptions neighbor_is_translate_unit.
+
+Example neighbor_is_translate_unit_nonvacuous :
+  valid [4; 5; 3] [3; 0; 2] /\ neighbor_p [4; 5; 3] [3; 0; 2] 0 true = [0; 0; 2] /\
+  neighbor_p [4; 5; 3] [3; 0; 2] 1 false = [3; 4; 2] /\ unit_cell [4; 5; 3] 1 false = [0; 4; 0].
+Proof. split; [apply validb_spec; reflexivity|]. repeat split. Qed.
+
+(** the non-periodic class CuboidCells: neighbour is None exactly at the border and otherwise the
+    periodic one; nearby is the unwrapped part of the periodic neighbourhood, symmetric and reflexive *)
+Theorem nonperiodic_relations : forall l ns a,
+  valid ns a ->
+  (forall d positive b, neighbor_np ns a d positive = Some b ->
+     b = neighbor_p ns a d positive /\ 0 <= nth d a 0 + sgn positive < nth d ns 0) /\
+  (forall d positive, (d < length ns)%nat ->
+     (neighbor_np ns a d positive = None <-> ~ (0 <= nth d a 0 + sgn positive < nth d ns 0))) /\
+  (forall b, In b (nearby_np l ns a) <-> near_np l ns a b) /\
+  (forall b, In b (nearby_np l ns a) -> In b (nearby_p l ns a)) /\
+  (forall b, valid ns b -> (In b (nearby_np l ns a) <-> In a (nearby_np l ns b))) /\
+  (0 <= l -> In a (nearby_np l ns a)).
+Proof.
+  exact (fun l ns a H =>
+    conj (fun d p b => neighbor_np_some ns a d p b H)
+   (conj (fun d p Hd => neighbor_np_none ns a d p H Hd)
+   (conj (fun b => In_nearby_np l ns a b)
+   (conj (fun b => nearby_np_subset l ns a b)
+   (conj (fun b Hb => nearby_np_symmetric l ns a b H Hb)
+         (fun Hl => nearby_np_refl l ns a Hl H)))))).
+Qed.
+Print Assumptions nonperiodic_relations.
+
+Example nonperiodic_relations_nonvacuous :
+  valid [4; 5] [3; 0] /\ neighbor_np [4; 5] [3; 0] 0 true = None /\
+  neighbor_np [4; 5] [3; 0] 1 true = Some [3; 1] /\ length (nearby_np 1 [4; 5] [3; 0]) = 4%nat.
+Proof. split; [apply validb_spec; reflexivity|]. repeat split. Qed.
